@@ -58,12 +58,17 @@ type c09job struct {
 	Single bool              `json:"single,omitempty"`  // one interpreted goroutine: it cannot finish while it is parked
 	Hist   []c10ev           `json:"hist,omitempty"`
 	Warm   bool              `json:"warm,omitempty"` // C10: every definition is executed once before the history
+	Threads int              `json:"threads,omitempty"` // histories: bound of interpreted goroutines of each cancelled run
 }
 
 const c09entryPath = "src/entry/main.go"
 
 // c09enter runs src under ctx through one of the three cancellable entry points.
 func c09enter(ip *interp.Interpreter, ctx context.Context, entry, src string) error {
+	return c09enterAt(ip, ctx, entry, src, c09entryPath)
+}
+
+func c09enterAt(ip *interp.Interpreter, ctx context.Context, entry, src, path string) error {
 	switch entry {
 	case "exec":
 		prog, err := ip.Compile(src)
@@ -73,7 +78,7 @@ func c09enter(ip *interp.Interpreter, ctx context.Context, entry, src string) er
 		_, err = ip.ExecuteWithContext(ctx, prog)
 		return err
 	case "path":
-		_, err := ip.EvalPathWithContext(ctx, c09entryPath)
+		_, err := ip.EvalPathWithContext(ctx, path)
 		return err
 	}
 	_, err := ip.EvalWithContext(ctx, src)
@@ -82,7 +87,9 @@ func c09enter(ip *interp.Interpreter, ctx context.Context, entry, src string) er
 
 // one evaluation on the interpreter under test
 type c09step struct {
-	How string `json:"how"` // evalctx (EvalWithContext, background) | eval | evalpath | import
+	How string `json:"how"` // evalctx (EvalWithContext, background) | execctx (Compile + ExecuteWithContext, background) | evalpathctx | eval | evalpath | import
+	// | cancel:<entry>:<k> (histories: a cancelled evaluation of its own, parked before operation k, observed like the job's own run;
+	// entry as in c09job.Entry, Src = the source, or the path of the file for entry "path")
 	Src string `json:"src"` // source, path, or import path
 }
 
@@ -91,6 +98,13 @@ func c09doStep(ip *interp.Interpreter, st c09step) error {
 	switch st.How {
 	case "evalctx":
 		_, err = ip.EvalWithContext(context.Background(), st.Src)
+	case "execctx":
+		var prog *interp.Program
+		if prog, err = ip.Compile(st.Src); err == nil {
+			_, err = ip.ExecuteWithContext(context.Background(), prog)
+		}
+	case "evalpathctx":
+		_, err = ip.EvalPathWithContext(context.Background(), st.Src)
 	case "eval":
 		_, err = ip.Eval(st.Src)
 	case "evalpath":
@@ -130,6 +144,8 @@ type c09res struct {
 	Slow         string   `json:"slow,omitempty"`    // latency-only remarks (never an alarm below the large bound)
 	Uses         []c10use `json:"uses,omitempty"`
 	HistEvents   []c10ev  `json:"hist_events,omitempty"` // history as executed (expired contexts resolved)
+	HistStep     int      `json:"hist_step,omitempty"`   // C09 histories: the observations are those of this earlier cancelled run (1-based index into Pre), the first one that broke the contract
+	HistRuns     []string `json:"hist_runs,omitempty"`   // C09 histories: the earlier cancelled runs that kept the contract
 }
 
 // ---------------------------------------------------------------- one run under the hook
@@ -510,12 +526,35 @@ func c09runJob(j c09job) (res c09res) {
 			}
 		}()
 	}
-	for _, p := range j.Pre {
+	var histRuns []string
+	for i, p := range j.Pre {
+		if strings.HasPrefix(p.How, "cancel:") {
+			// an earlier cancelled evaluation of the history: the same run under the hook, the same observations
+			f := strings.SplitN(p.How, ":", 3)
+			k, _ := strconv.Atoi(f[2])
+			sr := c09cancelRun(ip, before, c09job{ID: j.ID, Kind: "park", Src: p.Src, K: k, Entry: f[1], Single: j.Single}, p.Src)
+			c09cur.Store(nil)
+			c09tickTarget.Store(nil)
+			if sr.Err != "" || !sr.Completed && (!sr.Ret || sr.MaxOpsAfter > 1 || sr.Leftover > 0 || sr.Runaway || len(sr.TicksAfter) > j.Threads) {
+				sr.HistStep, sr.HistRuns = i+1, histRuns
+				return sr
+			}
+			histRuns = append(histRuns, fmt.Sprintf("step %d %s: completed=%v standstill=%v latency %.1f ms, exit %.1f ms, ticks before %d after %d", i+1, p.How, sr.Completed, sr.Stalled, sr.LatencyMs, sr.ExitMs, len(sr.TicksBefore), len(sr.TicksAfter)))
+			continue
+		}
 		if err := c09doStep(ip, p); err != nil {
 			res.Err = "pre: " + err.Error()
 			return
 		}
 	}
+	res = c09cancelRun(ip, before, j, c09entryPath)
+	res.HistRuns = histRuns
+	return
+}
+
+// c09cancelRun is one evaluation under the hook on ip: parked, cancelled, released, observed.
+func c09cancelRun(ip *interp.Interpreter, before map[uint64]bool, j c09job, path string) (res c09res) {
+	res.ID = j.ID
 	r := c09newRun(ip, j.K)
 	if j.ParkIn == "native" {
 		r.nativeK = j.K
@@ -533,7 +572,7 @@ func c09runJob(j c09job) (res c09res) {
 	}
 	errc := make(chan evalRes, 1)
 	go func() {
-		err := c09enter(ip, ctx, j.Entry, j.Src)
+		err := c09enterAt(ip, ctx, j.Entry, j.Src, path)
 		errc <- evalRes{err, time.Now()}
 	}()
 	var er evalRes
@@ -887,6 +926,8 @@ type c09tmpl struct {
 	KMax     int                 // cancellation points 1..KMax (0 = only the standstill point)
 	Stall    bool                // add the standstill cancellation point (k = 0)
 	Infinite bool
+	Hist     bool   // a history of cancelled evaluations on one interpreter (Pre holds the earlier ones); one job, k = KMax
+	Entry    string // Hist: the entry point of the last cancelled evaluation
 }
 
 func c09hdrSrc(body string) string {
@@ -1442,6 +1483,104 @@ func main() {
 			}
 		}
 	}
+	ts = append(ts, c09histories(r, thorough)...)
+	return ts
+}
+
+// c09histories: sequences of 2..4 cancelled evaluations on ONE interpreter through different entry points
+// (EvalWithContext, EvalPathWithContext, Compile + ExecuteWithContext), every ordered pair of entry points
+// adjacent at least once, the definitions of each evaluation loaded by a plain Eval in between, optionally a
+// successful uncancelled *WithContext run in between. Every evaluation starts a busy goroutine and goroutines
+// parked in receive / send / select / range, keeps its own goroutine busy, has its own cancellation point,
+// and is observed like any other C09 run (the first run that breaks the contract is the one reported). All
+// goroutines of a run have exited before the next one begins, and the interpreter has seen a *WithContext
+// call before any code is generated, so the whole stream is main stream (no revival, no stale channel).
+func c09histories(r *rng, thorough bool) []c09tmpl {
+	entries := []string{"", "path", "exec"}
+	label := map[string]string{"": "eval", "path": "path", "exec": "exec"}
+	var seqs [][]string
+	for _, a := range entries {
+		for _, b := range entries {
+			seqs = append(seqs, []string{a, b})
+		}
+	}
+	nrand := 4
+	if thorough {
+		nrand = 30
+	}
+	for i := 0; i < nrand; i++ {
+		n := 3 + r.intn(2)
+		var q []string
+		for len(q) < n {
+			q = append(q, entries[r.intn(3)])
+		}
+		seqs = append(seqs, q)
+	}
+	var ts []c09tmpl
+	for si, q := range seqs {
+		t := c09tmpl{Class: "conc", Kind: "park", Hist: true, Threads: 6, Infinite: true, Files: map[string]string{}}
+		t.Pre = append(t.Pre, c09step{"evalctx", "import \"host\""})
+		var names, srcs []string
+		for i, en := range q {
+			p := fmt.Sprintf("h%d", i+1)
+			a, b := 1+r.intn(9), 11+r.intn(9)
+			var defs, gos []string
+			defs = append(defs, fmt.Sprintf("func %sleaf(id int) {\n\tfor {\n\t\thost.Tick(id)\n\t}\n}\n", p))
+			park := []struct{ name, body, call string }{
+				{"recv", "c chan int) {\n\thost.Tick(21)\n\tv := <-c\n\t_ = v\n\thost.Tick(31)\n}\n", "(make(chan int))"},
+				{"send", "c chan int) {\n\tc <- 1\n\thost.Tick(32)\n}\n", "(make(chan int))"},
+				{"sel", "c, d chan int) {\n\tselect {\n\tcase v := <-c:\n\t\t_ = v\n\tcase d <- 1:\n\t}\n\thost.Tick(33)\n}\n", "(make(chan int), make(chan int))"},
+				{"rng", "c chan int) {\n\tfor v := range c {\n\t\t_ = v\n\t}\n\thost.Tick(34)\n}\n", "(make(chan int))"},
+			}
+			for pi, pk := range park {
+				if r.intn(4) == 0 && pi != i%4 { // at least one parked goroutine, a different one first in each position
+					continue
+				}
+				defs = append(defs, "func "+p+pk.name+"("+pk.body)
+				gos = append(gos, "\tgo "+p+pk.name+pk.call+"\n")
+			}
+			defs = append(defs, fmt.Sprintf("func %srun() {\n%s\tgo %sleaf(%d)\n\tfor {\n\t\thost.Tick(%d)\n\t}\n}\n", p, strings.Join(gos, ""), p, a, b))
+			if i > 0 && len(q) > 2 {
+				// a successful run under a live context in between
+				switch r.intn(4) {
+				case 0:
+					t.Pre = append(t.Pre, c09step{"evalctx", "1+1"})
+				case 1:
+					t.Pre = append(t.Pre, c09step{"execctx", "2+2"})
+				case 2:
+					okp := fmt.Sprintf("src/histok%d/ok%d.go", i+1, i+1)
+					t.Files[okp] = "package main\n\nimport \"host\"\n\nfunc init() {\n\thost.Delay()\n}\n"
+					t.Pre = append(t.Pre, c09step{"evalpathctx", okp})
+				}
+			}
+			t.Pre = append(t.Pre, c09step{"eval", strings.Join(defs, "\n")})
+			src := p + "run()"
+			file := fmt.Sprintf("package main\n\nimport \"host\"\n\nfunc init() {\n\thost.Delay()\n\t%srun()\n}\n", p) // the import: functions defined by Eval and not yet run are generated in the scope of this file
+			k := 1 + r.intn(60)
+			names = append(names, label[en])
+			if i == len(q)-1 {
+				t.Entry, t.KMin, t.KMax = en, k, k
+				t.Src = src
+				if en == "path" {
+					t.Src = file
+				}
+				srcs = append(srcs, t.Src)
+				break
+			}
+			if en == "path" {
+				fp := fmt.Sprintf("src/hist%d/h%dmain.go", i+1, i+1) // imports are recorded per file base name
+				t.Files[fp] = file
+				src = fp
+			}
+			t.Pre = append(t.Pre, c09step{fmt.Sprintf("cancel:%s:%d", en, k), src})
+			srcs = append(srcs, src)
+		}
+		t.Name = fmt.Sprintf("history-%d:%s", si, strings.Join(names, ">"))
+		if si < 9 {
+			t.Name = "history-pair:" + strings.Join(names, ">")
+		}
+		ts = append(ts, t)
+	}
 	return ts
 }
 
@@ -1490,6 +1629,9 @@ func runC09(args []string) error {
 			entries = []string{"", "exec", "path"}
 		}
 		entry := entries[r.intn(len(entries))]
+		if t.Hist {
+			entry = t.Entry
+		}
 		pre, gen := t.Pre, false
 		if entry == "exec" && t.Class == "conc" && len(t.Pre) == 0 && strings.Contains(t.Src, "func(") && strings.Contains(t.Src, "<-") {
 			// Compile generates the bodies of function literals at once: on an interpreter that has not seen a
@@ -1501,7 +1643,7 @@ func runC09(args []string) error {
 				gen = true
 			}
 		}
-		jobs = append(jobs, c09job{ID: id, Kind: t.Kind, Src: t.Src, Pre: pre, Posts: t.Posts, ParkIn: t.ParkIn, Files: t.Files, K: k, Procs: procs, Single: t.Class == "single", Entry: entry, Hold: t.Hold})
+		jobs = append(jobs, c09job{ID: id, Kind: t.Kind, Src: t.Src, Pre: pre, Posts: t.Posts, ParkIn: t.ParkIn, Files: t.Files, K: k, Procs: procs, Single: t.Class == "single", Entry: entry, Hold: t.Hold, Threads: t.Threads})
 		metas[id] = meta{t, k, procs, entry, gen}
 	}
 	procChoices := []int{0, 0, 1, 2, 4}
@@ -1585,6 +1727,23 @@ func runC09(args []string) error {
 		}
 		if t.ParkIn != "" {
 			in["parked"] = "inside the k-th call of the host function host.Tick"
+		}
+		if t.Hist {
+			in["history"] = "every step cancel:<entry point>:<k> of earlier_evaluations is a cancelled evaluation of its own on the same interpreter (entry point \"\" = EvalWithContext, path = EvalPathWithContext, exec = Compile + ExecuteWithContext), parked before its k-th operation; the last one is source / entry_point / k"
+			in["files"] = t.Files
+			sm.count("history-length:" + fmt.Sprint(strings.Count(t.Name, ">")+1))
+			{
+				q := strings.Split(t.Name[strings.LastIndex(t.Name, ":")+1:], ">")
+				for x := 1; x < len(q); x++ {
+					sm.count("history-adjacent-pair:" + q[x-1] + ">" + q[x])
+				}
+			}
+			if res.HistStep > 0 {
+				in["observed_run"] = fmt.Sprintf("the cancelled evaluation of step %d of earlier_evaluations (%s): the first one that broke the contract; the history stopped there", res.HistStep, t.Pre[res.HistStep-1].How)
+			} else {
+				in["observed_run"] = "the last cancelled evaluation; the earlier ones kept the contract"
+			}
+			in["earlier_cancelled_runs"] = res.HistRuns
 		}
 		if res.Skipped {
 			sm.count("skipped-after-repeated-run-aways")
